@@ -290,6 +290,11 @@ class ExecBase:
                 return t
         raise Unsupported("cannot join types %r and %r" % (t, u))
 
+    def ev_Dict(self, e, st, ctx, k):
+        if e.keys:
+            raise Unsupported("non-empty dict literal (line %d)" % e.lineno)
+        k(st, VDict({}))
+
     def ev_BoolOp(self, e, st, ctx, k):
         is_and = isinstance(e.op, ast.And)
 
@@ -499,6 +504,15 @@ class ExecBase:
             return k(st, VBool(z3.Not(t) if negate else t))
         if isinstance(b, VDict) and isinstance(a, VStr) and a.s is not None:
             return k(st, VBool((a.s in b.d) != negate))
+        if isinstance(b, VKeys) or isinstance(b, (VMap, VRow)):
+            of = b.of if isinstance(b, VKeys) else b
+            if isinstance(of, VMap) and isinstance(a, VStr):
+                t = map_has_row(st, of, a.t)
+                return k(st, VBool(z3.Not(t) if negate else t))
+            if isinstance(of, VRow) and isinstance(a, VStr) and a.s is not None:
+                t = map_has_field(st, of, a.s)
+                return k(st, VBool(z3.Not(t) if negate else t))
+            raise Unsupported("membership of a symbolic field name in a record")
         if isinstance(b, VList):
             n = list_len(st, b)
             j = z3.Int(fresh_name("j"))
@@ -556,7 +570,7 @@ class ExecBase:
             raise Unsupported("class attribute %s.%s" % (o.name, attr))
         if isinstance(o, VFunc) and o.kind == "module":
             return k(st, VFunc("builtin", name=o.name + "." + attr))
-        if isinstance(o, (VList, VTuple, VStr, VIter, VDict)):
+        if isinstance(o, (VList, VTuple, VStr, VIter, VDict, VMap, VRow)):
             return k(st, VFunc("bound", obj=o, name=attr))
         if isinstance(o, (VU, VInt, VBool)):
             self.assumptions.add("a scalar payload value has no attribute named like a fibertree field (.%s)" % attr)
@@ -617,6 +631,18 @@ class ExecBase:
             return k(st, list_get(st, o, it))
         if isinstance(o, VSeq):
             return k(st, seq_get(o, ops.to_int(i)))
+        if isinstance(o, VMap) and isinstance(i, VStr):
+            has = map_has_row(st, o, i.t)
+            if self.allows(ctx, "KeyError"):
+                return self.branch(st, has, lambda s: k(s, VRow(o, i.t)), lambda s: self.raise_(s, ctx, "KeyError", line))
+            self.oblige(st, "line%s::map-row-present" % line, has, line)
+            return k(st, VRow(o, i.t))
+        if isinstance(o, VRow) and isinstance(i, VStr) and i.s is not None:
+            has = map_has_field(st, o, i.s)
+            if self.allows(ctx, "KeyError"):
+                return self.branch(st, has, lambda s: k(s, map_get(s, o, i.s)), lambda s: self.raise_(s, ctx, "KeyError", line))
+            self.oblige(st, "line%s::map-field-present(%s)" % (line, i.s), has, line)
+            return k(st, map_get(st, o, i.s))
         if isinstance(o, VDict) and isinstance(i, VStr) and i.s is not None:
             if i.s in o.d:
                 return k(st, o.d[i.s])
